@@ -480,9 +480,16 @@ Qed.
 End TemplateClass.
 
 
-(** ** return paths: whatever findMatching returns is matchDeton(vwTry), matchDeflagOrHyb(vwTry,
-    sol.root) or the template fallback; findHydroBoundaries builds c1, c2 from
-    findMatching(vwTry) and nothing else defines vp, vm, Tp, Tm (facts [path_facts]) *)
+(** ** return paths (syntactic facts [path_facts], fail closed): the only statements of
+    findMatching / findHydroBoundaries that define vp, vm, Tp, Tm or return are
+    vp,vm,Tp,Tm = matchDeton(vwTry) | matchDeflagOrHyb(vwTry, sol.root) | findMatching(vwTry),
+    return (vp,vm,Tp,Tm) | template.findMatching(vwTemplate) | zeros | (..,None) |
+    (c1,c2,Tp,Tm,velocityMid); no statement stores to the velocity parameter, to an attribute
+    or to a subscript; EOM.wallPressure defines (c1,c2,Tplus,Tminus,velocityMid) once, as
+    self.hydrodynamics.findHydroBoundaries(wallVelocity), never stores to them or to
+    wallVelocity again and passes these names to _intermediatePressureResults.  (Under which
+    CONDITION a path runs is not a fact; the harness ties every returned matching to the
+    requested velocity.) *)
 Theorem return_paths : paths_wellformed path_facts = true.
 Proof. vm_compute. reflexivity. Qed.
 
@@ -516,6 +523,32 @@ Proof.
   unfold admissible, conserved, energy_flux_high, energy_flux_low, momentum_flux_high,
     momentum_flux_low, gammaSq. cbn [wHighT eHighT pHighT wLowT eLowT pLowT].
   repeat split; try lra; try (intros; lra); field.
+Qed.
+
+(** witnesses for the hypotheses of the root theorems, on the same constant equation of
+    state: vw = v- = 1/4, v+ = 1/2 is a zero of [matching] at every point x, and vw = 1/2 a
+    zero of [tmFromvpsq] *)
+Definition e_const : env :=
+  mk_env 1 10 (1/10) 0 1 (fun _ => 1) (fun _ => 2) (fun _ => 5) (fun _ => 13)
+         (fun _ => 6) (fun _ => 15) (fun _ => 1/3) (fun _ => 1/3).
+Example matching_root_exists : forall Tpm0 x,
+  matching_given e_const (1/4) (1/2) Tpm0 x = (0, 0) /\ admissible e_const (Tp_of e_const x) (Tm_of e_const x)
+  /\ 0 < csqLowT e_const (Tm_of e_const x).
+Proof.
+  intros Tpm0 x. split; [|split].
+  - rewrite matching_given_components. unfold vpvmAndvpovm. cbv zeta.
+    cbn [pHighT pLowT eHighT eLowT csqLowT e_const fst snd].
+    destruct (Req_EM_T 5 13) as [E|_]; [lra|]. cbn [negb fst snd].
+    rewrite Rmin_left by lra. f_equal; field.
+  - unfold admissible. cbn [pHighT pLowT eHighT eLowT e_const]. repeat split; lra.
+  - cbn [csqLowT e_const]. lra.
+Qed.
+Example deton_root_exists : forall tm,
+  tmFromvpsq e_const (1/2) tm = 0 /\ admissible e_const (Tnucl e_const) tm.
+Proof.
+  intro tm. split.
+  - unfold tmFromvpsq. cbv zeta. cbn [pHighT pLowT wHighT wLowT Tnucl e_const]. field.
+  - unfold admissible. cbn [pHighT pLowT eHighT eLowT Tnucl e_const]. repeat split; lra.
 Qed.
 
 (** ------------------------------------------------------------------------------ *)
@@ -686,3 +719,6 @@ Print Assumptions C02_deton_residual.
 Theorem C02_return_paths : paths_wellformed path_facts = true.
 Proof. exact return_paths. Qed.
 Print Assumptions C02_return_paths.
+
+Print Assumptions matching_root_exists.
+Print Assumptions deton_root_exists.
